@@ -17,6 +17,7 @@ C09 — file meta group integrity and preamble handling.
 namespace Dicom.Meta
 
 def Inv (t : Table) : Prop := t.igl = calcLen t
+instance (t : Table) : Decidable (Inv t) := by unfold Inv; infer_instance
 
 /-! ### lengths -/
 
@@ -602,69 +603,112 @@ theorem take4_len {f : Bytes} (hf : f.take 4 = magic) : 4 ≤ f.length := by
   have := congrArg List.length hf
   simp only [List.length_take, magic_len] at this; omega
 
+/-- a window of the first buffer fill is the same window of the source -/
+theorem window (f : Bytes) (cap n : Nat) (h : n + 4 ≤ cap) :
+    ((f.take cap).drop n).take 4 = (f.drop n).take 4 := by
+  rw [List.drop_take, List.take_take]
+  have : min 4 (cap - n) = 4 := by omega
+  rw [this]
+
+theorem window0 (f : Bytes) (cap : Nat) (h : 4 ≤ cap) : (f.take cap).take 4 = f.take 4 := by
+  rw [List.take_take]; have : min 4 cap = 4 := by omega
+  rw [this]
+
+/-- the start of a written file without preamble: `DICM`, then the tag (0002,0000) -/
+def StartsLikeMeta (f : Bytes) : Prop := f.take 4 = magic ∧ (f.drop 4).take 4 = glTag
+
+theorem startsLikeMeta_len {f : Bytes} (h : StartsLikeMeta f) : 8 ≤ f.length := by
+  have := congrArg List.length h.2
+  simp only [List.length_take, List.length_drop, glTag, List.length_cons, List.length_nil] at this; omega
+
 /-- **With the preamble**: whatever the 128 preamble bytes are, by path or from a byte source, the
-preamble is detected and skipped (first buffer fill of at least 132 bytes). -/
-theorem preamble_skipped (d : Defaults) (byPath : Bool) (cap : Nat) (hcap : 132 ≤ cap)
-    (P f : Bytes) (hP : P.length = 128) (hf : f.take 4 = magic) :
+preamble is detected and skipped (first buffer fill of at least 136 bytes). -/
+theorem preamble_skipped (d : Defaults) (byPath : Bool) (cap : Nat) (hcap : 136 ≤ cap)
+    (P f : Bytes) (hP : P.length = 128) (hf : StartsLikeMeta f) :
     openMeta d byPath cap (P ++ f) = readMeta d f := by
-  have h4 := take4_len hf
-  have e1 : (P ++ f).take cap = P ++ f.take (cap - 128) := by
-    rw [List.take_append, hP, List.take_of_length_le (by omega)]
-  have e2 : (P ++ f.take (cap - 128)).drop 128 = f.take (cap - 128) := by
-    rw [← hP, List.drop_left]
-  have hdrop : (((P ++ f).take cap).drop 128).take 4 = magic := by
-    rw [e1, e2, List.take_take]
-    have : min 4 (cap - 128) = 4 := by omega
-    rw [this, hf]
-  have hlen : ((P ++ f).take cap).length ≥ 132 := by
+  have h8 := startsLikeMeta_len hf
+  have dropP : ∀ k, (P ++ f).drop (128 + k) = f.drop k := by
+    intro k; rw [← hP, ← List.drop_drop, List.drop_left]
+  have h128 : (((P ++ f).take cap).drop 128).take 4 = magic := by
+    rw [window _ _ _ (by omega)]; have := dropP 0; simp only [Nat.add_zero] at this
+    rw [this, List.drop_zero, hf.1]
+  have h132 : (((P ++ f).take cap).drop 132).take 4 = glTag := by
+    rw [window _ _ _ (by omega), show 132 = 128 + 4 from rfl, dropP 4, hf.2]
+  have hlen : ((P ++ f).take cap).length ≥ 136 := by
     simp only [List.length_take, List.length_append, hP]; omega
   unfold openMeta detectPreamble
-  rw [if_neg (by omega), if_pos ⟨hlen, hdrop⟩]
+  rw [if_neg (by omega), if_pos ⟨by omega, h128⟩, if_neg (by
+    intro ⟨_, hn⟩; exact hn ⟨hlen, h132⟩)]
   simp only [true_or, if_true]
   rw [← hP, takeN_append]
 
-/-- **Without the preamble**: the file is read from its first byte, unless bytes 128..132 of the
-file itself spell `DICM` (then `detect_preamble` takes the first 128 bytes for a preamble). -/
-theorem no_preamble_read (d : Defaults) (byPath : Bool) (cap : Nat) (hcap : 132 ≤ cap)
-    (f : Bytes) (hf : f.take 4 = magic) (hamb : ¬ (132 ≤ f.length ∧ (f.drop 128).take 4 = magic)) :
+/-- **Without the preamble**: the file is read from its first byte — also when bytes 128..132 of the
+file itself spell `DICM` (inside a value), unless they are even followed by the group length tag. -/
+theorem no_preamble_read (d : Defaults) (byPath : Bool) (cap : Nat) (hcap : 136 ≤ cap)
+    (f : Bytes) (hf : StartsLikeMeta f)
+    (hamb : ¬ (136 ≤ f.length ∧ (f.drop 128).take 4 = magic ∧ (f.drop 132).take 4 = glTag)) :
     openMeta d byPath cap f = readMeta d f := by
-  have h4 := take4_len hf
-  have hnot : ¬ ((f.take cap).length ≥ 132 ∧ ((f.take cap).drop 128).take 4 = magic) := by
-    intro ⟨h1, h2⟩
-    apply hamb
-    simp only [List.length_take] at h1
-    refine ⟨by omega, ?_⟩
-    rw [List.drop_take, List.take_take] at h2
-    have : min 4 (cap - 128) = 4 := by omega
-    rw [this] at h2; exact h2
-  have htake : (f.take cap).take 4 = magic := by
-    rw [List.take_take]; have : min 4 cap = 4 := by omega
-    rw [this, hf]
-  unfold openMeta detectPreamble
-  rw [if_neg (by simp only [List.length_take]; omega), if_neg hnot, if_pos htake]
+  have h8 := startsLikeMeta_len hf
+  have hlen4 : ¬ (f.take cap).length < 4 := by simp only [List.length_take]; omega
+  have hstart : (f.take cap).take 4 = magic ∧ ((f.take cap).drop 4).take 4 = glTag :=
+    ⟨by rw [window0 _ _ (by omega), hf.1], by rw [window _ _ _ (by omega), hf.2]⟩
+  have hnever : detectPreamble (f.take cap) = some .never := by
+    unfold detectPreamble
+    rw [if_neg hlen4]
+    by_cases h128 : (f.take cap).length ≥ 132 ∧ ((f.take cap).drop 128).take 4 = magic
+    · rw [if_pos h128, if_pos]
+      refine ⟨hstart, ?_⟩
+      intro ⟨h1, h2⟩
+      apply hamb
+      simp only [List.length_take] at h1
+      rw [window _ _ _ (by omega)] at h2
+      have h3 := h128.2
+      rw [window _ _ _ (by omega)] at h3
+      exact ⟨by omega, h3, h2⟩
+    · rw [if_neg h128, if_pos hstart.1]
+  unfold openMeta
+  rw [hnever]
   simp
+
+theorem written_starts_like_meta (t : Table) (hs : Small t) (mb : Bytes) (hw : encodeMeta t = .ok mb)
+    (ds : Bytes) : StartsLikeMeta (magic ++ mb ++ ds) := by
+  obtain ⟨body, h1, _⟩ := group_length_exact t hs mb hw
+  subst h1
+  exact ⟨by simp [magic], by simp [magic, glTag]⟩
 
 /-- **Preamble irrelevant**: a complete file `preamble ++ DICM ++ meta group ++ data set` and the
 same file without its preamble give the same table and the same data set bytes, by path and from a
-byte source alike. -/
-theorem preamble_irrelevant (d : Defaults) (cap : Nat) (hcap : 132 ≤ cap) (t : Table) (hi : Inv t)
+byte source alike. (Excluded: a file without preamble that has `DICM` *and* the group length tag at
+offset 128 — it is indistinguishable from a file with a preamble.) -/
+theorem preamble_irrelevant (d : Defaults) (cap : Nat) (hcap : 136 ≤ cap) (t : Table) (hi : Inv t)
     (hs : Small t) (mb : Bytes) (hw : encodeMeta t = .ok mb) (P ds : Bytes) (hP : P.length = 128)
-    (hamb : ¬ (132 ≤ (magic ++ mb ++ ds).length ∧ ((magic ++ mb ++ ds).drop 128).take 4 = magic))
+    (hamb : ¬ (136 ≤ (magic ++ mb ++ ds).length ∧ ((magic ++ mb ++ ds).drop 128).take 4 = magic ∧
+               ((magic ++ mb ++ ds).drop 132).take 4 = glTag))
     (byPath : Bool) :
     openMeta d byPath cap (P ++ (magic ++ mb ++ ds)) = .ok (padTable t, ds) ∧
     openMeta d byPath cap (magic ++ mb ++ ds) = .ok (padTable t, ds) := by
-  have hf : (magic ++ mb ++ ds).take 4 = magic := by
-    rw [List.append_assoc, ← magic_len, List.take_left]
+  have hf := written_starts_like_meta t hs mb hw ds
   have hr := (meta_rt d t hi hs mb hw ds).1
   exact ⟨by rw [preamble_skipped d byPath cap hcap P _ hP hf, hr],
          by rw [no_preamble_read d byPath cap hcap _ hf hamb, hr]⟩
 
 set_option maxRecDepth 8000 in
-/-- the excluded point is real: a file without preamble whose bytes 128..132 are `DICM` is taken to
-have a preamble (model level; the run executes it on the implementation as class
-`dicm-at-128-without-preamble`) -/
-theorem ambiguous_detected_as_preamble :
-    detectPreamble (magic ++ List.replicate 124 0x41 ++ magic ++ [0, 0]) = some .always := by decide
+/-- the code as found took a file without preamble whose bytes 128..132 are `DICM` for a file with
+a preamble (executed on the implementation as class `dicm-at-128-without-preamble`); the repaired
+detection reads it from the start -/
+theorem ambiguous_old_vs_repaired :
+    let f := magic ++ glTag ++ List.replicate 120 0x41 ++ magic ++ [0x41, 0x42, 0, 0]
+    detectPreambleOld f = some .always ∧ detectPreamble f = some .never := by decide
+
+/-! ### media storage UIDs filled in from the data set -/
+
+/-- the repaired inference keeps the invariant … -/
+theorem inferSop_inv (t : Table) (c i : Option Bytes) : Inv (inferSop t c i) := update_inv _
+
+/-- … the code as found did not: the class UID is filled in, the recorded length stays -/
+theorem inferSopOld_breaks_inv :
+    let t := update { zeroTable with ts := [0x31] }
+    Inv t ∧ ¬ Inv (inferSopOld t (some [0x31, 0x2e, 0x32]) none) := by decide
 
 /-! ### non-vacuity -/
 
